@@ -25,7 +25,7 @@ func c09BaseAction(level string, t ValidationType) string {
 }
 
 func VsymC09Level() {
-	level := vr.OneOf("level", "strict", "permissive", "audit", "skip", "", "bogus")
+	level := vr.OneOf("level", "strict", "permissive", "audit", "skip", "", "bogus", "Strict", "SKIP", "Audit", "skip ")
 	n := vr.Choice("noverrides", vr.Param("overrides", 2)+1)
 	var override map[ValidationType]ValidationAction
 	if n > 0 || vr.Choice("emptyMapNotNil", 2) == 1 {
